@@ -11,11 +11,13 @@ from contracts.eam_common import *
 import contracts.setfl as SF
 import contracts.eam_tabulation as ET
 import contracts.funcfl as FF
+import contracts.excel as XS
 from pyvc.symexec import sqrt_fn
 
 FUNCTIONS = [(PT.FILE, 'GULP_PairTabulation._write_pot'), (PT.FILE, 'GULP_PairTabulation.write'), (PT.FILE, 'GULP_PairTabulation.__init__'),
              (PT.F_INIT, 'writePotentials'), (SF.FILE, '_writeSetFLPairPots'), (SF.FILE, 'writeSetFL'), (ET.FILE, 'ADP_EAMTabulation.write'),
-             (FF.FILE, '_writeHeader'), (FF.FILE, '_writeValueBlock'), (FF.FILE, 'writeFuncFL')]
+             (FF.FILE, '_writeHeader'), (FF.FILE, '_writeValueBlock'), (FF.FILE, 'writeFuncFL'),
+             (XS.FILE, 'Excel_PairTabulation._populate_worksheet')]
 SPECSEQS = [GU.grows, FF.grid, FF.fcol, FF.ch1, FF.ch2, FF.ch3]
 
 def lemmas():
@@ -62,10 +64,14 @@ MUTANTS = [
     (PT.FILE, 'GULP_PairTabulation._write_pot', "cutoff=self.cutoff", "cutoff=self.nr", 'init/0'),
     (ET.FILE, 'ADP_EAMTabulation.write', "self._write_dipole(sbuild)\n    self._write_quadrupole(sbuild)", "self._write_quadrupole(sbuild)\n    self._write_dipole(sbuild)", 'post'),
     (SF.FILE, '_writeSetFLPairPots', "if scale_r:", "if True:", 'preserve/3'),
+    (XS.FILE, 'Excel_PairTabulation._populate_worksheet', "pot = column_dict[label]", "pot = column_dict[column_keys[0]]", 'preserve/2'),
+    (XS.FILE, 'Excel_PairTabulation._populate_worksheet', "r_idx += 2", "r_idx += 1", 'preserve/2'),
+    (XS.FILE, 'Excel_PairTabulation._populate_worksheet', "col[0].value = pot(r)", "col[0].value = pot(r_idx)", 'preserve/2'),
+    (XS.FILE, 'Excel_PairTabulation._populate_worksheet', "ws.cell(r_idx, 1, value=r)", "ws.cell(r_idx, 1, value=r_idx)", 'init/2'),
 ]
-ASSUMPTIONS = ['A1: float as real', 'A7: GULP "spline cubic" library format; LAMMPS pair_style adp layout (u blocks then w blocks, lower triangle, unscaled)', 'A6: openpyxl (Excel targets are decided by the oracle only)']
-BOUNDED = [dict(name='the Excel sheets (and funcfl on the real code as a cross-check)', bound='seeded models, quick 60 / thorough 1500 cases',
-                technique='concrete oracle on the real code: the openpyxl cell model is outside the handled subset')]
+ASSUMPTIONS = ['A1: float as real', 'A7: GULP "spline cubic" library format; LAMMPS pair_style adp layout (u blocks then w blocks, lower triangle, unscaled)', 'A6: openpyxl cell model (contracts/excel.py: ws["A1"], ws.cell, iter_cols over one row, cell.value writing through to its sheet)']
+BOUNDED = [dict(name='the Excel sheets as whole workbooks: which (label, function) pairs and which grid the _add_* methods hand to the verified sheet-filling function _populate_worksheet, sheet names, saving (and funcfl on the real code as a cross-check)', bound='seeded models, quick 60 / thorough 1500 cases',
+                technique='concrete oracle on the real code')]
 NOTES = ['ADP_EAMTabulationFactory._extract_pots (dipole/quadrupole sections read like [Pair]) is exercised through C09/C16 contracts, not here']
 
 def oracle_payload(tier, seed, mode='search'): return dict(mode=mode, seed=seed, n=60 if tier == 'quick' else 1500)
